@@ -347,6 +347,7 @@ generic(
     "C02", "model_checking",
     quick=[
         dict(scope="big", mode="exhaustive", maxops=3, limit=150, mc=False),
+        dict(scope="neg", mode="simulate", num=30, depth=7, limit=300, mc=False),
         dict(scope="tree", mode="simulate", num=60, depth=8, limit=500, mc_maxgens=1, invariants=INV_C02),
         dict(scope="nest", mode="simulate", num=60, depth=8, limit=500, mc_maxgens=1, invariants=INV_C02, variants=[{"names": "plain"}, {"names": "mixed", "sfrev": True}, {"names": "nfd"}]),
         dict(scope="ign", mode="simulate", num=40, depth=7, limit=300, mc=False),
@@ -418,12 +419,14 @@ generic(
         dict(scope="ign", mode="simulate", num=120, depth=8, limit=800, mc_maxgens=1, invariants=INV_C12, variants=[{"names": "plain"}, {"names": "mixed", "augment": True}, {"names": "space", "augment": True}]),
         dict(scope="igndh", mode="simulate", num=80, depth=8, limit=900, mc_maxgens=1, invariants=INV_C12 + ["Inv_C09_Identical"], variants=[{"names": "plain", "augment": True}, {"names": "space"}]),
         dict(scope="ignsf", mode="simulate", num=60, depth=8, limit=600, mc_maxgens=2, invariants=INV_C12),
+        dict(scope="neg", mode="simulate", num=40, depth=7, limit=500, mc_maxgens=1, invariants=INV_C12 + ["Inv_C03_NoFalseAlarm", "Inv_C09_Identical"]),
     ],
     thorough=[dict(scope="all", mode="simulate", num=20, depth=12, maxops=14, maxgens=60, limit=2500, mc=True, mc_simulate=100000, mc_timeout=150, mc_depth=16, mc_maxgens=60, invariants=INV_C12),
              
         dict(scope="ign", mode="simulate", num=1200, depth=10, mc_maxgens=2, invariants=INV_C12, variants=[{"names": "plain"}, {"names": "mixed", "augment": True}]),
         dict(scope="igndh", mode="simulate", num=600, depth=10, limit=5000, mc_maxgens=2, invariants=INV_C12 + ["Inv_C09_Identical"], variants=[{"names": "plain", "augment": True}, {"names": "space"}]),
         dict(scope="ignsf", mode="simulate", num=600, depth=10, limit=6000, mc_maxgens=3, invariants=INV_C12),
+        dict(scope="neg", mode="simulate", num=400, depth=8, limit=3000, mc_maxgens=3, invariants=INV_C12 + ["Inv_C03_NoFalseAlarm", "Inv_C09_Identical"]),
     ],
     pclauses=["P_C12_Excluded", "P_C12_Accumulate", "P_C03_Quiet", "P_C07_Recorded", "P_C02_RecordSet", "P_C09_Identical", "P_C03_NoFalseAlarm"],
     antecedent=lambda ln, v: bool(v.get("A_ign")),
